@@ -101,6 +101,7 @@ func genAuthCfg(r *rand.Rand) vfCfg {
 		// passwords and second factors checked by (simulated) Okta through the real Okta authenticator
 		c.PwBackend = "okta"
 	}
+	c.AwsRoles = chance(r, 0.3)
 	c.Federated = chance(r, 0.2) // oauth2 login through a (simulated) identity provider
 	return c
 }
@@ -512,6 +513,10 @@ func genAuthPlan(r *rand.Rand, tier, focus string) *vfPlan {
 			add(vfStep{Op: "mintsession", Sess: "adm", User: pick(r, []string{"root", "autoadmin"}), N: int64(AuthTypeU2F | AuthTypePassword)})
 			add(vfStep{Op: "rolecert", Sess: "adm", A: pick(r, []string{"auto1", "auto2"}), L: []string{pick(r, vfNetChoices)}, B: pick(r, []string{"user_p256_3", "user_rsa2048_4"}),
 				D: pick(r, []string{"", "24h", "1080h", "1080h0m1s", "1092h", "1103h59m59s", "1104h", "2000h", "-1h", "9223372036s", "0s", "1ns", "10X"})})
+		case x < 87 && focus == "C03" && p.Cfg.AwsRoles:
+			// cloud-role certificates: 24 hours, whoever asks and however
+			add(vfStep{Op: "awsrole", A: pick(r, []string{"AKIAROLE1", "AKIAROLE2", "AKIAOTHER", "AKIAUSER1", "AKIANOBODY"}), B: pick(r, []string{"user_p256_1", "user_rsa2048_1", "user_ed25519_1", "user_rsa1024_1"}),
+				C: pick(r, []string{"", "", "", "forged", "claim:arn:aws:iam::123456789012:role/deployer"}), N: int64(pick(r, []int{0, 0, 0, 1}))})
 		case x < 85 && focus == "C03":
 			// an automation certificate from the operator's own CA, longer-lived than keymaster's, is refreshed
 			add(vfStep{Op: "opcert", User: pick(r, []string{"auto1", "auto2"}), D: pick(r, []string{"2160h", "8760h", "240h"})})
